@@ -119,6 +119,15 @@ pub struct Opts {
     pub digests_out: Option<PathBuf>,
     /// argv prefix used to re-exec this binary for replay confirmation
     pub reexec: Vec<String>,
+    /// > 0: run the search in this many single-threaded child processes (process isolation:
+    /// cases cannot interfere through process-global state of the code under test)
+    pub procs: usize,
+    /// child mode: handle case indices congruent to .0 modulo .1
+    pub stripe: Option<(u64, u64)>,
+    /// child mode: dump the aggregated results here instead of post-processing them
+    pub child_out: Option<PathBuf>,
+    /// the raw arguments, for handing down to children
+    pub raw_args: Vec<String>,
 }
 
 impl Opts {
@@ -139,6 +148,10 @@ impl Opts {
             known_findings: PathBuf::from("/verif/known_findings.json"),
             digests_out: None,
             reexec: vec![std::env::current_exe().unwrap().to_string_lossy().to_string()],
+            procs: 0,
+            stripe: None,
+            child_out: None,
+            raw_args: args.to_vec(),
         };
         let mut i = 0;
         while i < args.len() {
@@ -171,6 +184,13 @@ impl Opts {
                 "--replay-dir" => o.replay_dir = PathBuf::from(val()),
                 "--known-findings" => o.known_findings = PathBuf::from(val()),
                 "--digests-out" => o.digests_out = Some(PathBuf::from(val())),
+                "--procs" => o.procs = val().parse().unwrap_or_else(|_| std::process::exit(2)),
+                "--stripe" => {
+                    let v = val();
+                    let (a, b) = v.split_once('/').unwrap_or_else(|| std::process::exit(2));
+                    o.stripe = Some((a.parse().unwrap_or_else(|_| std::process::exit(2)), b.parse().unwrap_or_else(|_| std::process::exit(2))));
+                }
+                "--child-out" => o.child_out = Some(PathBuf::from(val())),
                 _ => {
                     eprintln!("unknown argument {}", a);
                     std::process::exit(2)
@@ -187,7 +207,7 @@ struct Agg {
     evaluations: u64,
     nontrivial: u64,
     env_digests: HashSet<u64>,
-    counters: BTreeMap<&'static str, u64>,
+    counters: BTreeMap<String, u64>,
     sim_time: u64,
     events: u64,
     digests: Vec<(u64, u64)>,
@@ -202,7 +222,7 @@ impl Agg {
             self.env_digests.insert(rec.env.0);
         }
         for (k, n) in &rec.counters {
-            *self.counters.entry(k).or_insert(0) += n;
+            *self.counters.entry(k.to_string()).or_insert(0) += n;
         }
         self.sim_time += rec.sim_time;
         self.events += rec.seq;
@@ -328,7 +348,31 @@ pub fn replay<H: Harness>(h: &H, opts: &Opts, path: &Path) -> i32 {
             return 2;
         }
     };
+    // a replayed case that hangs must still terminate the replay: watchdog thread
+    let limit: u64 = std::env::var("VERIF_HANG_LIMIT_S").ok().and_then(|v| v.parse().ok()).unwrap_or(600);
+    let finished = std::sync::Arc::new(AtomicBool::new(false));
+    {
+        let finished = finished.clone();
+        let prop = h.property();
+        let pth = path.display().to_string();
+        let confirm = opts.confirm;
+        std::thread::spawn(move || {
+            let t0 = Instant::now();
+            while t0.elapsed().as_secs() <= limit {
+                std::thread::sleep(std::time::Duration::from_millis(200));
+                if finished.load(Ordering::Relaxed) {
+                    return;
+                }
+            }
+            println!("REPLAY-RESULT class=hang site=no progress digest=0000000000000000");
+            if !confirm {
+                println!("VIOLATION property={} replay={}", prop, pth);
+            }
+            std::process::exit(1);
+        });
+    }
     let (viol, rec) = exec_case(h, &case, true);
+    finished.store(true, Ordering::Relaxed);
     match viol {
         Some(viol) => {
             println!(
@@ -375,16 +419,159 @@ pub fn search<H: Harness>(h: &H, opts: &Opts, wrap: &(dyn Fn(&mut (dyn FnMut() +
         total,
         opts.workers
     );
+    // ---- process isolation: single-threaded children, results merged here
+    let mut did_children = false;
+    if opts.procs > 0 && opts.stripe.is_none() {
+        did_children = true;
+        let n = opts.procs as u64;
+        let tmpdir = opts.part_dir.join(format!(".children-{}-{}", h.name(), std::process::id()));
+        let _ = std::fs::create_dir_all(&tmpdir);
+        let mut kids = Vec::new();
+        for i in 0..n {
+            let out = tmpdir.join(format!("{}.json", i));
+            let mut cmd = std::process::Command::new(&opts.reexec[0]);
+            cmd.args(&opts.reexec[1..]);
+            cmd.arg(h.name());
+            // hand the original arguments down, minus the ones this level owns
+            let mut skip = false;
+            for a in &opts.raw_args {
+                if skip {
+                    skip = false;
+                    continue;
+                }
+                if matches!(a.as_str(), "--procs" | "--workers" | "--digests-out") {
+                    skip = true;
+                    continue;
+                }
+                cmd.arg(a);
+            }
+            cmd.arg("--tier").arg(opts.tier.as_str()).arg("--seed").arg(opts.seed.to_string());
+            cmd.arg("--workers").arg("1").arg("--stripe").arg(format!("{}/{}", i, n)).arg("--child-out").arg(&out);
+            cmd.stdout(std::process::Stdio::piped());
+            match cmd.spawn() {
+                Ok(c) => kids.push((i, c, out)),
+                Err(e) => {
+                    eprintln!("HARNESS-ERROR: cannot spawn child: {}", e);
+                    return 2;
+                }
+            }
+        }
+        let mut child_failed = 0;
+        for (i, c, out) in kids {
+            let o = c.wait_with_output();
+            let code = o.as_ref().map(|o| o.status.code().unwrap_or(-1)).unwrap_or(-1);
+            let so = o.map(|o| String::from_utf8_lossy(&o.stdout).to_string()).unwrap_or_default();
+            // pass through verdict lines of a child that ended on its own (hang watchdog)
+            for l in so.lines() {
+                if l.starts_with("VIOLATION") || l.starts_with("violation") || l.starts_with("HARNESS-ERROR") {
+                    println!("{}", l);
+                }
+            }
+            let txt = std::fs::read_to_string(&out).unwrap_or_default();
+            let v: Value = match serde_json::from_str(&txt) {
+                Ok(v) => v,
+                Err(_) => {
+                    if code == 1 {
+                        child_failed = child_failed.max(1);
+                    } else {
+                        eprintln!("HARNESS-ERROR: child {} of {} ended with exit {} and no result", i, h.name(), code);
+                        child_failed = 2;
+                    }
+                    continue;
+                }
+            };
+            let mut g = global.lock().unwrap();
+            g.evaluations += v["evaluations"].as_u64().unwrap_or(0);
+            g.nontrivial += v["nontrivial"].as_u64().unwrap_or(0);
+            g.sim_time += v["sim_time"].as_u64().unwrap_or(0);
+            g.events += v["events"].as_u64().unwrap_or(0);
+            for d in v["env_digests"].as_array().map(|a| a.as_slice()).unwrap_or(&[]) {
+                g.env_digests.insert(d.as_u64().unwrap_or(0));
+            }
+            if let Some(c) = v["counters"].as_object() {
+                for (k, n) in c {
+                    *g.counters.entry(k.clone()).or_insert(0) += n.as_u64().unwrap_or(0);
+                }
+            }
+            for d in v["digests"].as_array().map(|a| a.as_slice()).unwrap_or(&[]) {
+                g.digests.push((d[0].as_u64().unwrap_or(0), d[1].as_u64().unwrap_or(0)));
+            }
+            for x in v["violations"].as_array().map(|a| a.as_slice()).unwrap_or(&[]) {
+                if let Ok(viol) = serde_json::from_value::<Violation>(x[1].clone()) {
+                    g.violations.push((x[0].as_u64().unwrap_or(0), viol));
+                }
+            }
+            for x in v["samples"].as_array().map(|a| a.as_slice()).unwrap_or(&[]) {
+                samples.lock().unwrap().push((x[0].as_u64().unwrap_or(0), x[1].clone()));
+            }
+        }
+        let _ = std::fs::remove_dir_all(&tmpdir);
+        if child_failed == 2 {
+            return 2;
+        }
+        if child_failed == 1 && global.lock().unwrap().violations.is_empty() {
+            // a child reported a violation on its own (hang watchdog) - its lines were passed through
+            return 1;
+        }
+    }
+    // watchdog: a case that does not finish within the limit is reported as a violation of
+    // class "hang" (wall clock is only read here, never inside a case)
+    let n_workers = opts.workers.max(1);
+    let current: Vec<AtomicU64> = (0..n_workers).map(|_| AtomicU64::new(0)).collect();
+    let started: Vec<AtomicU64> = (0..n_workers).map(|_| AtomicU64::new(0)).collect();
+    let all_done = AtomicBool::new(false);
+    let hang_limit_s: u64 = std::env::var("VERIF_HANG_LIMIT_S").ok().and_then(|v| v.parse().ok()).unwrap_or(600);
+    let worker_ids = AtomicU64::new(0);
+    let finished_workers = AtomicU64::new(0);
+    if !did_children {
     std::thread::scope(|s| {
-        for _ in 0..opts.workers.max(1) {
+        s.spawn(|| loop {
+            std::thread::sleep(std::time::Duration::from_millis(500));
+            if all_done.load(Ordering::Relaxed) {
+                break;
+            }
+            let now = start.elapsed().as_secs();
+            for w in 0..n_workers {
+                let cur = current[w].load(Ordering::Relaxed);
+                let st = started[w].load(Ordering::Relaxed);
+                if cur != 0 && now.saturating_sub(st) > hang_limit_s {
+                    let idx = cur - 1;
+                    let case_seed = derive(opts.seed, h.name(), idx);
+                    let case = h.gen(&mut Rng::new(case_seed), opts.tier);
+                    let _ = std::fs::create_dir_all(&opts.replay_dir);
+                    let path = opts.replay_dir.join(format!("{}-{}-hang-{}.json", h.property(), h.name(), idx));
+                    let doc = json!({
+                        "property": h.property(), "check": h.name(), "engine": h.engine(), "verif_seed": opts.seed, "tier": opts.tier.as_str(),
+                        "case_index": idx, "case_seed": case_seed,
+                        "violation": {"class": "hang", "site": "no progress", "detail": format!("case did not finish within {} s", hang_limit_s)},
+                        "digest": "0000000000000000", "case": serde_json::to_value(&case).unwrap(), "events": [],
+                    });
+                    let _ = std::fs::write(&path, serde_json::to_string_pretty(&doc).unwrap());
+                    println!("violation check={} case_index={} class=hang: case did not finish within {} s", h.name(), idx, hang_limit_s);
+                    println!("VIOLATION property={} replay={}", h.property(), path.display());
+                    let part = json!({"check": h.name(), "property": h.property(), "engine": h.engine(), "tier": opts.tier.as_str(), "seed": opts.seed,
+                        "evaluations": next.load(Ordering::Relaxed), "planned": total, "nontrivial_runs": 0, "distinct_nontrivial": 0, "rule": h.rule(), "samples": [],
+                        "counters": {}, "violations": 1, "replay_files": [path.display().to_string()], "known_findings_hit": [], "components": h.components(),
+                        "wall_s": start.elapsed().as_secs_f64(), "note": "aborted by the hang watchdog"});
+                    write_part(opts, h.name(), &part);
+                    std::process::exit(1);
+                }
+            }
+        });
+        for _ in 0..n_workers {
             s.spawn(|| {
+                let wid = worker_ids.fetch_add(1, Ordering::Relaxed) as usize;
                 let mut body = || {
                     let mut agg = Agg::default();
                     loop {
                         if stop.load(Ordering::Relaxed) {
                             break;
                         }
-                        let idx = next.fetch_add(1, Ordering::Relaxed);
+                        let j = next.fetch_add(1, Ordering::Relaxed);
+                        let idx = match opts.stripe {
+                            Some((i, n)) => j * n + i,
+                            None => j,
+                        };
                         if idx >= total {
                             break;
                         }
@@ -395,7 +582,10 @@ pub fn search<H: Harness>(h: &H, opts: &Opts, wrap: &(dyn Fn(&mut (dyn FnMut() +
                         let case_seed = derive(opts.seed, h.name(), idx);
                         let mut rng = Rng::new(case_seed);
                         let case = h.gen(&mut rng, opts.tier);
+                        started[wid].store(start.elapsed().as_secs(), Ordering::Relaxed);
+                        current[wid].store(idx + 1, Ordering::Relaxed);
                         let (v, rec) = exec_case(h, &case, false);
+                        current[wid].store(0, Ordering::Relaxed);
                         if idx < 3 {
                             samples.lock().unwrap().push((
                                 idx,
@@ -408,12 +598,33 @@ pub fn search<H: Harness>(h: &H, opts: &Opts, wrap: &(dyn Fn(&mut (dyn FnMut() +
                     global.lock().unwrap().merge(agg);
                 };
                 wrap(&mut body);
+                if finished_workers.fetch_add(1, Ordering::Relaxed) + 1 == n_workers as u64 {
+                    all_done.store(true, Ordering::Relaxed);
+                }
             });
         }
     });
+    }
     let mut agg = global.into_inner().unwrap();
     agg.digests.sort();
     agg.violations.sort_by_key(|x| x.0);
+    if let Some(out) = &opts.child_out {
+        let mut smp = samples.into_inner().unwrap();
+        smp.sort_by_key(|x| x.0);
+        let doc = json!({
+            "evaluations": agg.evaluations, "nontrivial": agg.nontrivial, "sim_time": agg.sim_time, "events": agg.events,
+            "env_digests": agg.env_digests.iter().collect::<Vec<_>>(),
+            "counters": agg.counters,
+            "digests": agg.digests.iter().map(|(i, d)| json!([i, d])).collect::<Vec<_>>(),
+            "violations": agg.violations.iter().map(|(i, v)| json!([i, v])).collect::<Vec<_>>(),
+            "samples": smp.iter().map(|(i, v)| json!([i, v])).collect::<Vec<_>>(),
+        });
+        if std::fs::write(out, serde_json::to_string(&doc).unwrap()).is_err() {
+            eprintln!("HARNESS-ERROR: cannot write child result");
+            return 2;
+        }
+        return 0;
+    }
     let mut run_digest = Digest::new();
     for (i, d) in &agg.digests {
         run_digest.u64(*i);
